@@ -48,6 +48,8 @@ def run(ck, tier):
     _verbatim(ck, p)
     from . import c09, c05
     c09._source(c05._Sub(ck, "R-C08-verbatim", "server-copy:"), p, "R-C08-verbatim")
+    ck.rule("R-C08-actions", "code actions are answered from the lints, wherever the cursor is: every path through DocumentState::generate_code_actions runs the linter and selects the lints whose span covers the requested position - no early exit that decides by something else (e.g. whether a token lies under the cursor: markup between the tokens of a flagged phrase belongs to the diagnostic's range but to no token)")
+    _actions(ck, p, byk)
     ck.rule("R-C08-key", "every open document has its own server-side state: each keyed access to the table of open documents (get / get_mut / entry / remove / insert ...) uses the URI of the request through copying conversions only - not a case-folded, trimmed or otherwise many-to-one form of it, under which two open documents would share text, diagnostics and the URI their edits are addressed to")
     c09.docmap_keys(ck, p, "R-C08-key")
 
@@ -588,3 +590,31 @@ def verbatim_source(ck, p, rule, scope, what, floor):
             else:
                 ck.proved(rule, key, f.loc(t["ln"]), "source = the text parameter, through chars().collect() and copies only")
     ck.floor(rule, what, n, floor)
+
+
+def _actions(ck, p, byk):
+    rule = "R-C08-actions"
+    fs = [f for f in byk.get("DocumentState::generate_code_actions", []) if f.name.startswith("harper_ls::")]
+    if not ck.anchor(rule, "DocumentState::generate_code_actions", fs):
+        return
+    f = fs[0]
+    ck.saw(f)
+    cfg = Cfg(f)
+    lints = [bi for bi, t in f.calls() if def_of(t) == "harper_core::linting::Linter::lint" or last(norm(inst_of(t) or "")) == "collect_lints"]
+    sel = [bi for bi, t in f.calls() if method(t) in ("filter", "retain", "filter_map") or last(norm(inst_of(t) or "")) == "overlaps_with"]
+    for c in with_closures(p, f)[1:]:
+        if any(last(norm(inst_of(t) or "")) == "overlaps_with" for _, t in c.calls()):
+            sel.append(-1)
+    if not lints:
+        ck.undecided(rule, "generate_code_actions:always-lints", f.span, "no call of Linter::lint found in generate_code_actions")
+        return
+    ok, wit = cfg.every_path_passes(0, set(lints))
+    if 0 in lints:
+        ok = True
+    if ok and sel:
+        ck.proved(rule, "generate_code_actions:always-lints", f.span, "every path runs the linter (bb%s) and the lints are selected by overlap with the requested position" % lints)
+    elif ok:
+        ck.undecided(rule, "generate_code_actions:always-lints", f.span, "every path runs the linter, but no selection by Span::overlaps_with was recognised")
+    else:
+        lns = sorted({f.blocks[b0]["t"].get("ln") for b0 in (wit or []) if f.blocks[b0]["t"].get("ln")})
+        ck.refuted(rule, "generate_code_actions:always-lints", f.loc(lns[-1] if lns else 0), "a path returns from generate_code_actions without running the linter (lines %s): for a position it rules out that way no fix is offered, although the range of a published diagnostic can cover it (the characters between the tokens of a flagged phrase - emphasis markers, tags, comment leaders - lie inside the diagnostic's range but under no token)" % lns[:8])
